@@ -7,6 +7,8 @@ PathCollections on the Axes; `chart.to_dict()`), never through rendered pixels.
 """
 from __future__ import annotations
 
+import copy
+
 import inspect
 import math
 import os
@@ -692,7 +694,12 @@ class SpaceImpl:
         np, plt = m["np"], m["plt"]
         before = {n: lay.data.copy() for n, lay in self.layers.items()}
         datas = {n: d.astype(int).tolist() for n, d in before.items()}
-        request = self.layer_request(specs)
+        # the same request is the same dict objects again (SolaraViz hands one portrayal dict to every redraw): what a draw
+        # writes into it would be read back by the next draw of a layer whose values have changed meanwhile
+        if not hasattr(self, "requests"):
+            self.requests = {}
+        request = self.requests.setdefault(repr(specs), self.layer_request(specs))
+        request_before = copy.deepcopy(request)
         snap = self.snapshot() if with_agents else None
         fig = m["Figure"]()
         ax = fig.add_subplot()
@@ -713,6 +720,8 @@ class SpaceImpl:
         for n, lay in self.layers.items():
             if not np.array_equal(lay.data, before[n]):
                 self.trace.append(("layer-mutated", before[n].tolist(), np.asarray(lay.data).tolist()))
+        if request != request_before:
+            self.trace.append(("request-mutated", repr(request_before), repr(request)))
         out, res = self.read_layers(fig, ax, specs, datas)
         self.trace.append(("layers", self.fam, datas, specs, res, None, with_agents))
         if with_agents:
@@ -2338,6 +2347,8 @@ def oracle(sc, obs):
                 continue
             if tok.startswith("err") or (n > 0 and tok in ("none", "several", "?", "inf", "nan")) or (n == 0 and tok != "none"):
                 bad.append(f"default-size: with {n} agents in the space the default marker size is {tok}")
+        elif kind == "request-mutated":
+            bad.append(f"layer-request-mutated: drawing changed the caller's propertylayer_portrayal from {ev[1]} to {ev[2]}")
         elif kind == "layer-mutated":
             bad.append(f"layer-mutated: drawing the property layer changed the model's layer values from {ev[1]} to {ev[2]}")
         elif kind == "layers":
